@@ -23,7 +23,9 @@ ROWS = [1, 2, 9, 10, 11, 99, 100, 1048575, 1048576]
 SHEETS = ['', 'S', 'Sheet 1', "O'Brien", 'it is', '2024', 'A1', 'R1C1', 'é', "a 'q' b", 'x.y', 'Sheet-1',
           # every other character Excel allows in a sheet name (it forbids only : \\ / ? * [ ] and a quote at either end)
           'a!b', 'x y!z', 'A!1', 'Sheet1!A1', '(1)', 'a,b', 'a;b', 'a&b', '#1', '50%', 'a=b', 'a+b', 'a<b>', 'a"b', 'a{b}', 'a~b', 'a^b',
-          '$A$1', 'TRUE', '1e5', 'XFD1', 'XFE1', 'RC', 'R', '\u65e5\u672c', "don't", 'Ab12c', 'x' * 31]
+          '$A$1', 'TRUE', '1e5', 'XFD1', 'XFE1', 'RC', 'R', '\u65e5\u672c', "don't", 'Ab12c', 'x' * 31,
+          # a quote directly before a '!' inside the name (the quoted form doubles the quote: 'x''!y'!A1)
+          "x'!y", "Q1 'final'!", "a'!'b"]
 MAXC, MAXR = 16384, 1048576
 
 
@@ -403,6 +405,30 @@ def work_unbounded(job):
                             bad('roundtrip', [x, y], f'{r1!s} (result of {pre}{x} {law} {pre}{y}) does not parse: {type(exc).__name__}')
             if str(objs[x] & objs[x]) != str(objs[x]) or str(objs[x] ** objs[x]) != str(objs[x]):
                 bad('idempotent', x, f'{pre}{x} & itself = {objs[x] & objs[x]!s}, ** itself = {objs[x] ** objs[x]!s}')
+    # operands on different / missing sheets: two different sheets have nothing in common (#VALUE!), a sheet-less
+    # operand takes the other one's sheet, whichever way round and whichever operand is a single cell
+    shapes = ['A1:D5', 'B3', 'C4:F9', 'A:A', 'B3:B3']
+    for x in shapes:
+        for y in shapes:
+            for sx in ('', 's', 't'):
+                for sy in ('', 's', 't'):
+                    acc.add('evaluations', 2)
+                    a = AddressRange.create((sx + '!' if sx else '') + x)
+                    b = AddressRange.create((sy + '!' if sy else '') + y)
+                    for law, op in (('intersection', lambda p, q: p & q), ('union', lambda p, q: p ** q)):
+                        try:
+                            r1, r2 = op(a, b), op(b, a)
+                        except Exception as exc:
+                            bad(law, [sx, x, sy, y], f'{a!s} {law} {b!s} raised {type(exc).__name__}: {exc}')
+                            continue
+                        if sx and sy and sx != sy:
+                            if r1 != '#VALUE!' or r2 != '#VALUE!':
+                                bad(law, [sx, x, sy, y], f'{a!s} {law} {b!s} = {r1!s} / reversed {r2!s}: different sheets, expected #VALUE!')
+                            continue
+                        if str(r1) != str(r2):
+                            bad('commutative', [sx, x, sy, y], f'{a!s} {law} {b!s} = {r1!s} but reversed {r2!s}')
+                        elif not isinstance(r1, str) and r1.sheet != (sx or sy):
+                            bad(law, [sx, x, sy, y], f'{a!s} {law} {b!s} = {r1!s}: sheet {r1.sheet!r}, expected {(sx or sy)!r}')
     # a multi-colon spelling is the bounding rectangle of its parts, with or without a sheet
     for txt, same in (('A1:B2:C3', 'A1:C3'), ('C3:A1:B2', 'A1:C3'), ('S!A1:B2:C3', 'S!A1:C3'), ('B2:B2:D4', 'B2:D4')):
         acc.add('evaluations')
@@ -421,7 +447,7 @@ def work_unbounded(job):
 def run(ctx):
     n = 16
     sh = SHEETS[ctx.seed % len(SHEETS):] + SHEETS[:ctx.seed % len(SHEETS)]
-    ctx.pmap(work_roundtrip, [(sh if ctx.thorough else sh[:6] + ["a 'q' b", 'a!b', 'x y!z', 'a,b'], k, n) for k in range(n)], timeout=3000)
+    ctx.pmap(work_roundtrip, [(sh if ctx.thorough else sh[:6] + ["a 'q' b", 'a!b', 'x y!z', 'a,b', "x'!y", "Q1 'final'!"], k, n) for k in range(n)], timeout=3000)
     g = 6 if ctx.thorough else 4
     m = 64 if not ctx.thorough else 441
     ctx.pmap(work_lattice, [(g, k, m, True) for k in range(m)], timeout=6000)
